@@ -34,10 +34,20 @@ def make_case(rng, flags=None, cyclic=False):
     page = G.fix_adjacent(G.gen_seq(rng, rng.randint(1, 4), False, names, 4, flags))
     wraps = []
     lib_txt = []
+    for ent in lib_:
+        if not cyclic and rng.random() < 0.07:
+            ent[1] = []                 # a template whose includable part is empty (documentation only, or nothing at all)
     for name, body, pre in lib_:
         w = rng.choice(INCLUDE_WRAPS) if rng.random() < 0.4 else INCLUDE_WRAPS[0]
         wraps.append(w)
         lib_txt.append([name, w[0] % G.render(body), pre])
+    if not cyclic and rng.random() < 0.3:
+        # the same call more than once on the page: every occurrence expands on its own
+        calls = [it for it in page if not isinstance(it, int) and it[0] == "T"]
+        if calls:
+            dup = rng.choice(calls)
+            for _ in range(rng.randint(1, 2)):
+                page = list(page) + G.txt(rng.choice([" ", "b", "\n", "x"])) + [dup]
     return {"lib_ast": lib_, "page_ast": page, "lib": lib_txt, "page": G.render(page), "wraps": wraps,
             "opts": {}, "title": "Tt"}
 
